@@ -17,9 +17,19 @@ var linTotals = map[string]uint32{"Linear16K": 16384, "Linear32K": 32768, "Linea
 	"GeoRam_512K": 65536 + 1<<19, "GeoRam_2048K": 65536 + 1<<21,
 	"F256_512K": 0x100000 + 32768, "F256_768K": 0x140000 + 32768}
 
+// wrapLayers: when set (snapshot stream only), the machine is built with the coprocessor layer and an output port
+// layer on top of the memory: TakeSnapshot / RestoreSnapshot / ClearStatistics must pass through both
+var wrapLayers = false
+
 func newMem(spec string) memory.Memory {
 	cfg := emuconfig.DefaultConfig()
 	cfg.MemSpec = spec
+	if wrapLayers {
+		cfg.F256MCoprocFlags = 5
+		cfg.F256MCoprocBase = 0x0300
+		cfg.IoMask = 0x02
+		cfg.IoAddrConfig = map[uint8]string{0xF0: "stdout:bin"}
+	}
 	c, err := cfg.NewCpu()
 	if err != nil {
 		panic(err)
@@ -103,7 +113,15 @@ func linAddr(r *rng.R, spec string) uint32 {
 // memHistory generates and executes one history; flavour selects the operation alphabet:
 // 4 = CPU view only, 5 = both views, 6 = + statistics and clear, 7 = + snapshot/restore
 func memHistory(r *rng.R, spec string, flavour int, length int) string {
+	// the snapshot property also holds "when the memory is wrapped by trap, port or coprocessor layers": a third of
+	// the snapshot histories run on a machine with both layers (the stream judges restore images against the images
+	// at snapshot time only, so the layers' own stores do not matter)
+	wrapLayers = flavour == 7 && length%3 == 0
+	if wrapLayers {
+		count("mem.wrapped")
+	}
 	m := newMem(spec)
+	wrapLayers = false
 	lm := m.ToLargeMemory()
 	var ops, res []string
 	snapImages := []string{}
@@ -272,7 +290,9 @@ func memReplayLine(req string) {
 
 // memExec executes operation tokens on a fresh machine
 func memExec(spec string, flavour int, ops []string) string {
+	wrapLayers = flavour == 7 && len(ops)%3 == 0 // as memHistory does
 	m := newMem(spec)
+	wrapLayers = false
 	lm := m.ToLargeMemory()
 	var res []string
 	snapImages := []string{}
